@@ -72,6 +72,12 @@ def react_programs(tick, unit, tf, kind):
         if kind == 'futures':
             oo2['sl'] = [[2, w]]
         out.append(('%s-limit-open-tp-at-market-w%d' % (side, w), dict(b, enter={'when': 'flat', 'legs': [[2, sg]]}, on_open=oo2)))
+    # entries decided by the shape of the completed trading candle (open vs close, high vs previous high)
+    ex0 = {'tp': 'all', 'tp_d': w}
+    if kind == 'futures':
+        ex0.update({'sl': 'all', 'sl_d': w})
+    out.append(('long-market-if-bullish-w%d' % w, {'tick': tick, 'unit': unit, 'side': 'long', 'enter': {'when': 'bullish', 'legs': [[1, 0]]}, 'on_open': ex0, 'cancel_entry': True}))
+    out.append(('long-market-if-breakout-w%d' % w, {'tick': tick, 'unit': unit, 'side': 'long', 'enter': {'when': 'breakout', 'legs': [[1, 0]]}, 'on_open': ex0, 'cancel_entry': True}))
     # an entry that is kept across trading candles, and a stop that is moved at every trading-candle close
     b = {'tick': tick, 'unit': unit, 'side': 'long'}
     ex = {'tp': 'all', 'tp_d': w}
